@@ -142,14 +142,24 @@ Qed.
 
 (* ... and a string that is not a declared value up to ASCII case is rejected *)
 Theorem relaxed_rejects entries s :
+  fallback (build_enum true entries) = None ->
   (forall e n r, In e entries -> normalize e = Some (n, r) -> lower_a r <> lower_a s) ->
   dec_relaxed (build_enum true entries) s = None.
 Proof.
-  intros H. unfold dec_relaxed.
-  destruct (find (fun v => astr_mem (lower_a s) (accepted_lower v)) (build_enum true entries)) as [v|] eqn:F; [|reflexivity].
+  intros Hfb H. unfold dec_relaxed.
+  destruct (find (fun v => astr_mem (lower_a s) (accepted_lower v)) (build_enum true entries)) as [v|] eqn:F; [|exact Hfb].
   exfalso. apply find_some in F. destruct F as [Fin Fp]. apply astr_mem_In in Fp.
   unfold accepted_lower in Fp. apply in_map_iff in Fp. destruct Fp as [r [Hr Hrin]].
   assert (Hacc : In r (acc (build_enum true entries))) by (unfold acc; apply in_flat_map; exists v; auto).
   unfold build_enum in Hacc. apply acc_build_merge in Hacc. destruct Hacc as [[]|[e [n [He Hn]]]].
   apply (H e n r He Hn). exact Hr.
+Qed.
+
+(* with a variant named Unknown / Other every undeclared string is accepted (as that variant) *)
+Theorem relaxed_fallback_swallows entries s fb :
+  fallback (build_enum true entries) = Some fb ->
+  exists v, dec_relaxed (build_enum true entries) s = Some v.
+Proof.
+  intros Hfb. unfold dec_relaxed.
+  destruct (find (fun v => astr_mem (lower_a s) (accepted_lower v)) (build_enum true entries)) as [v|]; eauto.
 Qed.
